@@ -1169,9 +1169,10 @@ fn registry_shapes() -> Vec<Dev> {
     ]
 }
 
-fn run_scenario(ctx: &mut Ctx, keys: &Keys, s: &Scenario, label: &str) { run_scenario_across(ctx, keys, s, label, 0) }
+fn run_scenario(ctx: &mut Ctx, keys: &Keys, s: &Scenario, label: &str) { let _ = run_scenario_keep(ctx, keys, s, label); }
 
-fn run_scenario_across(ctx: &mut Ctx, keys: &Keys, s: &Scenario, label: &str, across_secs: u64) {
+/// builds the certificates, judges them now, and hands them back so that the SAME certificates can be judged again later
+fn run_scenario_keep(ctx: &mut Ctx, keys: &Keys, s: &Scenario, label: &str) -> Option<(Certificate, Vec<Certificate>, Vec<(Certificate, TrustPurpose)>)> {
     let now = std::time::SystemTime::now().duration_since(std::time::UNIX_EPOCH).unwrap().as_secs();
     // a combination of deviations that x509-cert itself refuses to encode is not a certificate: skipped (and counted)
     let built = catch(|| {
@@ -1192,18 +1193,11 @@ fn run_scenario_across(ctx: &mut Ctx, keys: &Keys, s: &Scenario, label: &str, ac
             if ctx.notes.len() < 20 {
                 ctx.notes.push(format!("not encodable: {:?}: {msg}", s.tags));
             }
-            return;
+            return None;
         }
     };
     judge(ctx, s, label, &leaf, &rest, &reg, now);
-    // the SAME certificates judged again after the wall clock has moved on (a validity boundary a few seconds ahead is
-    // crossed in between): the verdict is the one of the moment of the call
-    if across_secs > 0 {
-        std::thread::sleep(Duration::from_secs(across_secs));
-        let later = std::time::SystemTime::now().duration_since(std::time::UNIX_EPOCH).unwrap().as_secs();
-        ctx.count("clock:judged-again-later");
-        judge(ctx, s, &format!("{label}:later"), &leaf, &rest, &reg, later);
-    }
+    Some((leaf, rest, reg))
 }
 
 fn judge(ctx: &mut Ctx, s: &Scenario, label: &str, leaf: &Certificate, rest: &[Certificate], reg: &[(Certificate, TrustPurpose)], now: u64) {
@@ -1220,7 +1214,21 @@ fn judge(ctx: &mut Ctx, s: &Scenario, label: &str, leaf: &Certificate, rest: &[C
         Rs::Aamva => ValidationRuleset::AamvaMdl,
         Rs::Reader => ValidationRuleset::MdlReaderOneStep,
     };
+    let t0 = std::time::SystemTime::now().duration_since(std::time::UNIX_EPOCH).unwrap().as_secs();
     let outcome = catch(|| ruleset.validate(&x5, &registry));
+    let t1 = std::time::SystemTime::now().duration_since(std::time::UNIX_EPOCH).unwrap().as_secs();
+    // a validity boundary that lies between the instant given to the model and the instant of the call (a loaded machine
+    // can stall for seconds) makes the expectation ambiguous: such a case is not judged
+    {
+        let lo = now.min(t0).saturating_sub(1);
+        let hi = t1 + 1;
+        let crosses = |c: &Certificate| {
+            let nb = c.tbs_certificate.validity.not_before.to_unix_duration().as_secs();
+            let na = c.tbs_certificate.validity.not_after.to_unix_duration().as_secs();
+            (lo <= nb && nb <= hi) || (lo <= na && na <= hi)
+        };
+        if crosses(&leaf) || reg.iter().any(|(c, _)| crosses(c)) { ctx.count("clock:boundary-at-the-instant-of-the-call:not-judged"); return; }
+    }
     let obs = match &outcome {
         Ok(o) => {
             let mut codes: Vec<u64> = o.errors.iter().map(|m| classify(m)).collect();
@@ -1349,10 +1357,14 @@ pub fn run(ctx: &mut Ctx) {
             s.tags.push(what.to_string());
             plans.push(s);
         }
-        // judged now (three of them one by one without waiting), and the last one waits for all
-        for (i, s) in plans.iter().enumerate() { if i + 1 < plans.len() { run_scenario(ctx, &keys, s, "clock") } }
-        // build all at the same `now`, wait once: simplest is to wait on each in turn with a short gap
-        for s in &plans { run_scenario_across(ctx, &keys, s, "clock", 4); }
+        // all four judged now; then, after ONE wait that takes the clock past every boundary, the SAME certificates again:
+        // the verdict is the one of the moment of the call
+        let kept: Vec<_> = plans.iter().map(|s| run_scenario_keep(ctx, &keys, s, "clock")).collect();
+        std::thread::sleep(Duration::from_secs(6));
+        let later = std::time::SystemTime::now().duration_since(std::time::UNIX_EPOCH).unwrap().as_secs();
+        for (s, k) in plans.iter().zip(kept) {
+            if let Some((leaf, rest, reg)) = k { ctx.count("clock:judged-again-later"); judge(ctx, s, "clock:later", &leaf, &rest, &reg, later); }
+        }
         if !ctx.thorough { break; }
     }
     let n_random = ctx.budget(260, 12_000);
